@@ -16,7 +16,8 @@ BUDGET = {"quick": 600, "thorough": 2400}
 namespaces = common.namespaces
 real_namespace = common.real_namespace
 GOALS = ["excluded combination refused", "allowed combination applied", "truthy spelling", "falsy spelling", "cli equals keyword form",
-         "cli refused like keyword form", "documented option list matches"]
+         "cli refused like keyword form", "documented option list matches", "loop settings applied by the MultiSocketServer",
+         "loop settings applied by the TcpWSGIServer", "loop settings applied by the UnixWSGIServer"]
 ASSUMPTIONS = [
     "socket.getaddrinfo is stubbed: returns one AF_INET stream address for a numeric port, raises gaierror otherwise (its documented contract); "
     "socket objects are stand-ins with symbolic family / type",
@@ -31,10 +32,12 @@ TRUTHY = ("t", "true", "y", "yes", "on", "1")
 
 def BOUNDS(tier):
     n = 4 if tier == "quick" else 5
-    return ("EXCL: all 2^5 presence subsets of listen/host/port/sockets/unix_socket x 9 socket lists x 10 trusted-proxy option shapes x an unknown "
+    return ("EXCL: all 2^5 presence subsets of listen/host/port/sockets/unix_socket x 9 socket lists x 13 trusted-proxy option shapes (incl. mixed-case kinds) x an unknown "
             "option name; CAST: every boolean option spelling of <= %d symbolic characters, integers / octal strings / url_prefix of <= 3-4 symbolic "
             "characters, list values from templates with a symbolic character; CLI: every option of Adjustments._params in both spellings "
-            "(--x / --no-x for booleans, --x=v with v symbolic <= 3 characters) against the keyword form; DOC: direct comparison." % n)
+            "(--x / --no-x for booleans, --x=v with v empty or symbolic <= 3 characters) against the keyword form; APPLY: asyncore_loop_timeout (symbolic text "
+            "of <= 2 characters) and asyncore_use_poll (5 spellings) reach the I/O loop of every kind of server create_server returns (one socket, two, "
+            "three, unix); DOC: direct comparison." % n)
 
 
 # ---------------------------------------------------------------------------------------------- environment
@@ -46,6 +49,24 @@ class FakeSock:
 
     def getsockname(self):
         return ("127.0.0.1", 80)
+
+
+class ListenFake(FakeSock):
+    """a listening socket stand-in that create_server can wrap (never accepts)"""
+
+    def __init__(self, family, fd):
+        FakeSock.__init__(self, family, _socket.SOCK_STREAM)
+        self.fd = fd
+
+    def setblocking(self, f): pass
+    def fileno(self): return self.fd
+    def getsockopt(self, *a): return 0
+    def setsockopt(self, *a): pass
+    def bind(self, a): pass
+    def listen(self, n): pass
+    def getsockname(self): return ("127.0.0.1", 8080) if self.family != 1 else "/tmp/x.sock"
+    def accept(self): raise BlockingIOError(11, "EAGAIN")
+    def close(self): pass
 
 
 class SockShim:
@@ -108,7 +129,10 @@ PROXY = [dict(), dict(trusted_proxy="1.2.3.4"), dict(trusted_proxy_count=2), dic
          dict(trusted_proxy_headers="forwarded"), dict(trusted_proxy="1.2.3.4", trusted_proxy_count=0),
          dict(trusted_proxy="1.2.3.4", trusted_proxy_headers="forwarded x-forwarded-for"),
          dict(trusted_proxy="1.2.3.4", trusted_proxy_headers="x-forwarded-for x-bogus"),
-         dict(trusted_proxy="1.2.3.4", trusted_proxy_count=3, trusted_proxy_headers="X-Forwarded-For x-forwarded-host")]
+         dict(trusted_proxy="1.2.3.4", trusted_proxy_count=3, trusted_proxy_headers="X-Forwarded-For x-forwarded-host"),
+         dict(trusted_proxy="1.2.3.4", trusted_proxy_headers="Forwarded X-Forwarded-For"),
+         dict(trusted_proxy="1.2.3.4", trusted_proxy_headers="x-forwarded-proto FORWARDED"),
+         dict(trusted_proxy="1.2.3.4", trusted_proxy_headers="X-Bogus")]
 INT_OPTS = ("port", "threads", "backlog", "recv_bytes", "send_bytes", "outbuf_overflow", "outbuf_high_watermark", "inbuf_overflow",
             "connection_limit", "cleanup_interval", "channel_timeout", "max_request_header_size", "max_request_body_size",
             "asyncore_loop_timeout", "channel_request_lookahead", "trusted_proxy_count")
@@ -139,7 +163,12 @@ def jobs(tier):
             continue
         js.append(dict(name="CLI:%s" % k, fam="CLI", opt=k, cast=c))
     js.append(dict(name="DOC", fam="DOC"))
+    for kind in SERVER_KINDS:
+        js.append(dict(name="APPLY:%s" % kind, fam="APPLY", kind=kind))
     return js
+
+
+SERVER_KINDS = {"single": [(2, 3)], "multi": [(2, 3), (10, 4)], "three": [(2, 3), (2, 4), (10, 5)], "unix": [(1, 3)]}
 
 
 def make_inputs(job):
@@ -175,15 +204,26 @@ def make_inputs(job):
         if job["opt"] in ("listen", "unix_socket", "host", "server_name", "ident", "url_scheme", "trusted_proxy"):
             v = ("127.0.0.1:80", "/tmp/s", "h", "n", "id", "https", "1.2.3.4")[
                 ("listen", "unix_socket", "host", "server_name", "ident", "url_scheme", "trusted_proxy").index(job["opt"])]
-            pos = eng.choose(len(v), "pos")
+            pos = eng.choose(len(v) + 1, "pos")
+            if pos == len(v):
+                return dict(fam=fam, opt=job["opt"], cast=cast, value="")  # --opt= with nothing after the equals sign
             w = SymStr.fresh(1, "w")
             eng.assume(z3.And(z3.UGE(w.c[0], 0x21), z3.ULE(w.c[0], 0x7E)))
             return dict(fam=fam, opt=job["opt"], cast=cast, value=v[:pos] + w + v[pos + 1:])
-        n = 1 + eng.choose(2 if job["opt"] == "port" else 3, "n")
+        n = eng.choose(3 if job["opt"] == "port" else 4, "n")
+        if n == 0:
+            return dict(fam=fam, opt=job["opt"], cast=cast, value="")
         v = SymStr.fresh(n, "v")
         for c in v.c:
             eng.assume(z3.And(z3.UGE(c, 0x20), z3.ULE(c, 0x7E)))
         return dict(fam=fam, opt=job["opt"], cast=cast, value=v)
+    if fam == "APPLY":
+        n = 1 + eng.choose(2, "n")
+        t = SymStr.fresh(n, "t")
+        for c in t.c:
+            eng.assume(z3.And(z3.UGE(c, 0x20), z3.ULE(c, 0x7E)))
+        poll = ("true", "false", "Yes", "0", "on")[eng.choose(5, "poll")]
+        return dict(fam=fam, kind=job["kind"], timeout=t, poll=poll)
     return dict(fam="DOC")
 
 
@@ -243,6 +283,32 @@ def scenario(ns, inp):
         except Exception as e:  # noqa
             via_runner = ("parse-exception:%s" % type(e).__name__, None)
         return dict(cli=cli, kwform=_construct(m, kw), runner=via_runner)
+    if fam == "APPLY":
+        # the settings that the server object itself hands to the I/O loop: asyncore_loop_timeout and asyncore_use_poll, for every kind of server
+        # create_server can return (single TCP, multi-socket, unix)
+        socks = [ListenFake(famly, fd) for famly, fd in SERVER_KINDS[inp["kind"]]]
+        captured = {}
+
+        class Loop:
+            @staticmethod
+            def loop(*a, **k):
+                captured["args"] = a
+                captured.update(k)
+
+        class Disp:
+            def set_thread_count(self, n): pass
+            def shutdown(self, *a, **k): pass
+            def add_task(self, t): pass
+        try:
+            mp = {}
+            srv = ns.server.create_server(lambda e, s: [], map=mp, _start=False, _dispatcher=Disp(), sockets=socks,
+                                          asyncore_loop_timeout=inp["timeout"], asyncore_use_poll=inp["poll"])
+        except ValueError:
+            return dict(res="ValueError")
+        srv.asyncore = Loop
+        srv.run()
+        return dict(res="ok", cls=type(srv).__name__, timeout=captured.get("timeout"), use_poll=captured.get("use_poll"), same_map=captured.get("map") is mp,
+                    positional=len(captured.get("args", ())))
     # DOC
     params = [k for k, _ in m.Adjustments._params]
     root = os.path.dirname(os.path.dirname(os.path.dirname(os.path.abspath(m.__file__))))
@@ -352,6 +418,18 @@ def oracle(inp, obs):
             out.append(("command-line form and keyword form produce identical settings", sym_equal(cli[1], kwf[1])))
         out.append(("the runner passes the same settings on (runner=%s)" % run[0], run[0] == cli[0] and (run[1] is None or bool(sym_equal(run[1], cli[1])))))
         return out
+    if fam == "APPLY":
+        try:
+            want = sx_int(inp["timeout"])
+            ok = True
+        except ValueError:
+            ok = False
+        out.append(("asyncore_loop_timeout: refused iff not an integer literal", (obs["res"] == "ok") == ok))
+        if obs["res"] == "ok" and ok:
+            out.append(("the %s server hands asyncore_loop_timeout to the I/O loop as configured" % obs["cls"], obs["positional"] == 0 and sym_equal(obs["timeout"], want)))
+            out.append(("the %s server hands asyncore_use_poll to the I/O loop as configured" % obs["cls"], obs["use_poll"] is (inp["poll"].lower() in TRUTHY)))
+            out.append(("the %s server runs the I/O loop on its own socket map" % obs["cls"], obs["same_map"]))
+        return out
     out.append(("every implemented adjustment is documented in docs/arguments.rst and vice versa (direct comparison)",
                 obs["params"] == obs["documented"]))
     out.append(("every implemented adjustment except 'sockets' has a command-line option in the runner help and vice versa (direct comparison)",
@@ -380,4 +458,6 @@ def goals(cin, cobs):
         out.append("cli equals keyword form" if cobs["cli"][0] == "ok" else "cli refused like keyword form")
     if fam == "DOC":
         out.append("documented option list matches")
+    if fam == "APPLY" and cobs["res"] == "ok":
+        out.append("loop settings applied by the %s" % cobs["cls"])
     return out
